@@ -512,7 +512,23 @@ fn main() -> anyhow::Result<()> {
         for &r in &row.rates {
             anyhow::ensure!(row.server || r > 0, "rate must be > 0");
         }
-        let v = if row.pattern == "holdgate" { run_holdgate(row)? } else { run_row(row) };
+        let v = if row.pattern == "holdgate" {
+            // The staged pattern relies on the limiter's recorded lock program (where a caller can be stopped between the
+            // tenant and the global consume).  When it cannot be staged - the code no longer has that shape - the row is
+            // recorded as void (nothing admitted, nothing to judge) instead of aborting the whole grid.
+            match run_holdgate(row) {
+                Ok(v) => v,
+                Err(e) => {
+                    let (_l, eff, global) = make_limiter(row);
+                    json!({"run": row.run, "rate": eff, "burst": eff, "grate": global.unwrap_or(0), "gburst": global.unwrap_or(0),
+                           "conc": [1, 1], "nt": eff.len(), "threads": row.threads, "pattern": row.pattern, "server": row.server,
+                           "calls": 0, "refused": 0, "tokens_end": [Value::Null, Value::Null],
+                           "adm": Vec::<Value>::new(), "ref": Vec::<Value>::new(), "void": format!("{e:#}")})
+                }
+            }
+        } else {
+            run_row(row)
+        };
         calls += v["calls"].as_u64().unwrap_or(0);
         admitted += v["adm"].as_array().map(|a| a.len() as u64).unwrap_or(0);
         out.emit(&v);
